@@ -237,6 +237,7 @@ func MatchUnder(s *refavro.Schema, t *gen.T, v reflect.Value, omit bool, d any, 
 			return path + ": model handles only [null,T]/[T,null] on the write side"
 		}
 		isNull := false
+		eitherOK := false // a zero value under omitempty may be written as null or as the zero value
 		tt, vv := t, v
 		for tt.K == gen.KPtr {
 			if vv.IsNil() {
@@ -251,9 +252,18 @@ func MatchUnder(s *refavro.Schema, t *gen.T, v reflect.Value, omit bool, d any, 
 				isNull = IsNullLike(tt, vv)
 			default:
 				if omit && t.K != gen.KPtr && vv.IsZero() && tt.K != gen.KStruct {
-					isNull = true
+					eitherOK = true
 				}
 			}
+		}
+		if eitherOK {
+			if u.Branch == nullIdx {
+				return ""
+			}
+			if u.Branch != otherIdx {
+				return fmt.Sprintf("%s: selector %d out of range", path, u.Branch)
+			}
+			return MatchUnder(s.Branches[otherIdx], tt, vv, false, u.Val, path)
 		}
 		if isNull {
 			if u.Branch != nullIdx {
